@@ -249,13 +249,27 @@ def check(ctx):
     vstores = {i.fn.name for i in vf.stores_to_field(pdb, "rtr_socket.version")}
     setters = set()
     for f in pdb.all_functions():
-        for c in f.calls(fsm.CHANGE):
-            if vf.expr(f, c.args[1]) == ("c", fast):
-                setters.add(f.name)
-                prev = [i for i in f.all_insts() if i.op == "store" and vf.store_field(i) == "rtr_socket.version" and f.dom(i, c) and i.block.id == c.block.id]
-                ctx.check(bool(prev), "C08.R3", "fast-reconnect-lowers-version:%s" % f.name, c.loc(),
-                          "the change to RTR_FAST_RECONNECT directly follows a store to the version (which C13.R1 proves to be a decrease)",
-                          key="C08.R3:fast:%s" % f.name)
+        if f.name == fsm.CHANGE or not f.calls(fsm.CHANGE):
+            continue
+        sites = {}
+
+        def classify(inst, E, st_, sites=sites):
+            if inst.op == "store" and vf.store_field(inst) == "rtr_socket.version":
+                return ["=vs:1"]
+            if inst.op == "call" and inst.callee == fsm.CHANGE:
+                av = E.val(inst.args[1])
+                if av is not None and av[0] == "in" and fast in av[1]:
+                    sites.setdefault(inst.ref, [inst, True])
+                    if st_.get("vs") != "1":
+                        sites[inst.ref][1] = False
+            return None
+        es.count_effects(f, pdb, classify, retsets, cap=96)
+        for ref, (c, okv) in sorted(sites.items()):
+            setters.add(f.name)
+            ctx.check(okv, "C08.R3", "fast-reconnect-lowers-version:%s" % f.name, c.loc(),
+                      "on every path on which this call changes the state to RTR_FAST_RECONNECT a store to the version "
+                      "(which C13.R1 proves to be a decrease) has been executed before",
+                      key="C08.R3:fast:%s" % f.name)
     ctx.floor("C08.R3", len(setters), 2)
     # R5
     opens = [(b, ev) for (a, b, l, ev) in edges if a == st["RTR_CONNECTING"] and ("call", "tr_open", -1) in ev]
